@@ -13,7 +13,7 @@ from . import common
 
 LEVEL = 'other'
 EXPLANATION = (
-    "Static analysis (the export definitions folded over mock models). BaseModel.get_data, Frame.get_data and its helpers, PredicateInterpretation.having and Access.flat are folded from source over mock frames/interpretations: (R1) the export lists exactly the model's worlds (sorted) and access pairs (R.flat over those worlds, sorted), and for each world the atomics and opaques read from the same per-frame stores that value_of_atomic/value_of_opaque read, with the stored values; non-modal models export frame 0; (R2) a tuple is in a predicate's extension exactly when its stored value is true-containing (T or B) and in the anti-extension exactly when false-containing (B or F), the anti-extension being exported iff the logic is many-valued, with +/- symbols; (R3) every listing comes out sorted whatever the insertion order. Agreement with value_of for arbitrary compound sentences is C08; per-model values are declined. (R4) Model.finish() folded end to end: every world of the access relation has a completed frame, so the export covers what evaluation reads.")
+    "Static analysis (the export definitions folded over mock models). BaseModel.get_data, Frame.get_data and its helpers, PredicateInterpretation.having and Access.flat are folded from source over mock frames/interpretations: (R1) the export lists exactly the model's worlds (sorted) and access pairs (R.flat over those worlds, sorted), and for each world the atomics and opaques read from the same per-frame stores that value_of_atomic/value_of_opaque read, with the stored values; non-modal models export frame 0; (R2) a tuple is in a predicate's extension exactly when its stored value is true-containing (T or B) and in the anti-extension exactly when false-containing (B or F), the anti-extension being exported iff the logic is many-valued, with +/- symbols; (R3) every listing comes out sorted whatever the insertion order. Agreement with value_of for arbitrary compound sentences is C08; per-model values are declined. (R4) Model.finish() folded end to end: every world of the access relation has a completed frame, so the export covers what evaluation reads. (R5) LogicMetaMeta.__new__ folded over every logic's Meta facts: the many_valued flag the export branches on equals 'more than two truth values' for all 57 logics. R1's evaluator side is folded too (value_of_atomic/opaque/predicated return the value stored in frames[world], unassigned when absent).")
 TRUSTED = ['CPython ast', 'sa.minieval', 'Python sorted()']
 ASSUMPTIONS = ['sorted() over sentences/predicates/tuples relies on the lexical total order (C14)']
 
@@ -67,10 +67,23 @@ def run(ctx, rep):
     # the evaluator reads the same stores
     for name, store in (('value_of_atomic', 'atomics'), ('value_of_opaque', 'opaques'), ('value_of_predicated', 'predicates')):
         fn = m.func(MODELS, f'BaseModel.{name}')
-        ok = f'self.frames[world].{store}' in astq.u(fn)
+        rep.consult(m.loc(MODELS, fn) + f' BaseModel.{name}')
+        pred = Obj('pred')
+        sent = Obj('sentence', params=('c1', 'c2'), predicate=pred)
+        stores = {w: dict(atomics={}, opaques={}, predicates={pred: {}}) for w in (0, 3)}
+        key = sent.params if store == 'predicates' else sent
+        (stores[3][store][pred] if store == 'predicates' else stores[3][store])[key] = 'STORED@3'
+        (stores[0][store][pred] if store == 'predicates' else stores[0][store])[key] = 'STORED@0'
+        mdl = Obj('model', __srcclass__=(m, ClassRef(MODELS, 'BaseModel')), frames={w: Obj(f'frame{w}', **st) for w, st in stores.items()},
+                  Meta=Obj('Meta', unassigned_value='UNASSIGNED'), constants={'c1', 'c2'}, finished=True)
+        mdl._check_finished = lambda: None
+        got = [it.safe(fn, [mdl, sent], dict(world=w)) for w in (0, 3)]
+        other = Obj('other-sentence', params=('c1', 'c1'), predicate=pred)
+        got.append(it.safe(fn, [mdl, other], dict(world=3)))
+        ok = got == ['STORED@0', 'STORED@3', 'UNASSIGNED']
         rep.instance(R1, ok=ok, nontrivial=(name, store))
         if not ok:
-            rep.finding(R1, f'C20.R1/{name}', m.loc(MODELS, fn), f'BaseModel.{name}', f'no longer reads frames[world].{store}, the store the export publishes')
+            rep.finding(R1, f'C20.R1/{name}', m.loc(MODELS, fn), f'BaseModel.{name}', f'does not read the value stored in frames[world].{store} (the store the export publishes), unassigned when absent: gives {got!r} at worlds 0, 3 and for an unset key')
     # --- _get_sentencemap_data
     R3 = rep.rule('C20.R3', 'every listing is sorted, whatever the insertion order')
     for order in itertools.permutations(['q', 'p', 'r']):
@@ -156,3 +169,79 @@ def run(ctx, rep):
                             'and does not change by evaluating')
     n = common.finish_folds(ctx, rep, R4, 'C20.R4')
     rep.floor('C20.R4', 'finish pre-states', n, 500)
+    r5(ctx, rep)
+
+
+LOGICS = 'pytableaux.logics'
+
+
+def fold_meta_flags(m, lg, fn):
+    """LogicMetaMeta.__new__ folded for one logic's Meta facts -> the class object it returns (flags as attributes)."""
+    from ..minieval import Raised
+
+    class Values:
+        "the logic's value enum: callable by name, sized"
+        def __init__(self, names):
+            self.names = list(names)
+
+        def __call__(self, name):
+            if name not in self.names:
+                raise ValueError(name)
+            return ('VAL', name)
+
+        def __len__(self):
+            return len(self.names)
+
+        def __iter__(self):
+            return iter(('VAL', n) for n in self.names)
+
+    class Cat(dict):
+        def __getattr__(self, k):
+            try:
+                return self[k]
+            except KeyError:
+                raise AttributeError(k)
+    catdef = next((x for x in ast.walk(m.trees[LOGICS]) if isinstance(x, ast.ClassDef) and x.name == 'Category'), None)
+    if catdef is None:
+        raise AnalysisError('logics/__init__.py: the Category enum not found')
+    catnames = [st.targets[0].id for st in catdef.body if isinstance(st, ast.Assign) and isinstance(st.targets[0], ast.Name) and not st.targets[0].id.startswith('_')]
+    if len(catnames) < 2:
+        raise AnalysisError(f'LogicType.Meta.Category members not readable: {catnames}')
+    Category = Cat({n: ('CATEGORY', n) for n in catnames})
+    cls = Obj(f'{lg.short}.Meta', name=lg.name, __module__=lg.module, native_operators=tuple(lg.native_operators), modal_operators=('Possibility', 'Necessity'),
+              truth_functional_operators=tuple(lg.native_operators), values=Values([n for n, _ in lg.values]), designated_values=tuple(sorted(lg.designated)),
+              unassigned_value=lg.unassigned, modal=lg.modal, quantified=lg.quantified, Category=Category)
+    Self = Obj('LogicMetaMeta')
+    setattr(Self, '_LogicMetaMeta__modmap', {})
+    setattr(Self, '__modmap', getattr(Self, '_LogicMetaMeta__modmap'))
+    sup = Obj('super')
+    sup.__new__ = lambda *a, **k: cls
+    g = dict(super=lambda *a: sup, __package__=LOGICS, check=Obj('check', subcls=lambda c, t: c), LogicType=Obj('LogicType', Meta=object),
+             qsetf=tuple, EMPTY_SET=frozenset())
+    it = Interp(g, where='logics/__init__.py LogicMetaMeta.__new__', modtree=m.trees[LOGICS])
+    ns = dict(name=lg.name)
+    try:
+        return it.call(fn, [Self, 'Meta', (), ns])
+    except Raised as e:
+        raise AnalysisError(f'LogicMetaMeta.__new__ does not fold for {lg.short}: {e.text}')
+
+
+def r5(ctx, rep):
+    m = ctx.m
+    R5 = rep.rule('C20.R5', 'the flag the export branches on is the logic\'s value count: LogicMetaMeta.__new__ folded over every logic\'s Meta facts gives '
+                            'many_valued == (more than two truth values); so a logic with false-containing values other than through absence publishes the anti-extension')
+    fn = m.func(LOGICS, 'LogicMetaMeta.__new__')
+    rep.consult(m.loc(LOGICS, fn) + ' LogicMetaMeta.__new__')
+    n = 0
+    for lg in ctx.lgs:
+        cls = fold_meta_flags(m, lg, fn)
+        got = getattr(cls, 'many_valued', None)
+        want = len(lg.values) != 2
+        n += 1
+        ok = got is want
+        rep.instance(R5, ok=ok, nontrivial=lg.short)
+        if not ok:
+            rep.finding(R5, f'C20.R5/{lg.short}', m.loc(LOGICS, fn), 'LogicMetaMeta.__new__',
+                        f'{lg.name} has {len(lg.values)} truth values ({"modal" if lg.modal else "non-modal"}) but its Meta.many_valued comes out {got!r}; '
+                        f'Frame._get_predicate_data_values publishes the anti-extension only when that flag is true')
+    rep.floor('C20.R5', 'logics', n, 50)
